@@ -908,6 +908,12 @@ func (a *analyzer) analyzeDotimes(node *lisp.LVal, scope *Scope, currentPkg stri
 		a.result.Symbols = append(a.result.Symbols, sym)
 	}
 
+	// The optional result form (symbol count result) is evaluated in the
+	// loop scope after the last turn (lisp/op.go opDoTimes).
+	if len(bindingList.Cells) > 2 {
+		a.analyzeExpr(bindingList.Cells[2], dotimesScope, currentPkg)
+	}
+
 	// Walk body
 	for i := 2; i < len(node.Cells); i++ {
 		a.analyzeExpr(node.Cells[i], dotimesScope, currentPkg)
